@@ -56,3 +56,52 @@ package pdf
 //@ func (*xRefEntry).IsFree (entry) (free)
 //@   tags C04
 //@   ensures free == (entry == nil || entry.Pos < 0)
+
+// ---- scanner: buffer abstraction (DESIGN.md Appendix A) ----
+// Ghost: s.src.stream is everything the byte source will ever deliver, s.src.rdpos how
+// much of it has been consumed, s.src.fails whether the source ends with a non-EOF error;
+// s.P0 is the file offset of stream[0].
+//@ ghost P0 int
+//@ pred R(s *scanner) = 0 <= s.pos && s.pos <= s.used && s.used <= len(s.buf) && len(s.buf) == 1024 && s.src != nil
+//@   | && 0 <= s.P0 && s.P0 <= s.filePos && s.P0 <= 281474976710656 && len(s.src.stream) <= 281474976710656
+//@   | && s.src.rdpos == s.filePos - s.P0 + s.used && s.src.rdpos <= len(s.src.stream)
+//@   | && (forall j in offof(s.buf)..offof(s.buf)+s.used :: raw(s.buf)[j] == s.src.stream[s.filePos - s.P0 + j - offof(s.buf)])
+//@   | && (s.err != nil ==> s.src.fails && s.src.rdpos == len(s.src.stream) && s.err != io.EOF && s.err != io.ErrUnexpectedEOF)
+//@ pred apos(s *scanner) = s.filePos + s.pos
+
+//@ func (*scanner).refill (s) (err)
+//@   tags C01 C04 C05 C19 C20
+//@   requires R(s)
+//@   assigns s.filePos, s.pos, s.used, s.err, elems(s.buf), s.src.rdpos
+//@   ensures R(s)
+//@   ensures s.filePos + s.pos == old(s.filePos + s.pos) && s.P0 == old(s.P0)
+//@   ensures s.used - s.pos >= old(s.used - s.pos)
+//@   ensures old(s.err) == nil ==> s.pos == 0
+//@   ensures old(s.err) != nil ==> err == old(s.err) && s.pos == old(s.pos) && s.used == old(s.used)
+//@   ensures err == nil && s.err == nil && s.used < 1024 ==> s.src.rdpos == len(s.src.stream) && !s.src.fails
+//@   ensures err != nil ==> err == s.err && s.src.fails
+//@   ensures s.src.stream == old(s.src.stream)
+
+//@ pred scanFrame(s *scanner) = s.P0 == old(s.P0) && s.src.stream == old(s.src.stream) && s.src == old(s.src) && s.src.fails == old(s.src.fails) && refof(s.buf) == old(refof(s.buf))
+//@ pred atEnd(s *scanner) = s.filePos + s.pos - s.P0 == len(s.src.stream)
+//@ pred avail(s *scanner) = len(s.src.stream) - (s.filePos + s.pos - s.P0)
+
+//@ func (*scanner).PeekN (s, n) (view, err)
+//@   tags C01 C04 C05 C19 C20
+//@   requires R(s) && 0 <= n && n <= 1024
+//@   assigns s.filePos, s.pos, s.used, s.err, elems(s.buf), s.src.rdpos
+//@   ensures R(s) && scanFrame(s)
+//@   ensures apos(s) == old(apos(s))
+//@   ensures refof(view) == refof(s.buf) && offof(view) == offof(s.buf) + s.pos && len(view) <= s.used - s.pos
+//@   ensures len(view) == min(n, avail(s))
+//@   ensures err != nil ==> len(view) < n && s.src.fails && err == s.err
+//@   ensures len(view) < n && s.src.fails ==> err != nil
+
+//@ func (*scanner).ReadByte (s) (c, err)
+//@   tags C01 C04 C05 C19 C20
+//@   requires R(s)
+//@   assigns s.filePos, s.pos, s.used, s.err, elems(s.buf), s.src.rdpos
+//@   ensures R(s) && scanFrame(s)
+//@   ensures err == nil ==> apos(s) == old(apos(s)) + 1 && c == s.src.stream[old(apos(s)) - s.P0]
+//@   ensures err != nil ==> apos(s) == old(apos(s)) && atEnd(s)
+//@   ensures err != nil && err != io.EOF ==> s.src.fails
